@@ -16,6 +16,20 @@ from mc.lib7z import Collect, install_key_cache
 from mc.ref import ref7z
 
 MODULE = "mc.checks.c14"
+
+# member lists only C14 uses: large enough that io.BufferedRandom (8 KiB) splits the session into several flushes
+BIG = {
+    "big": [("writef", "s{n}/big.bin", "random:20000")],
+    "big2": [("writestr", "s{n}/a.txt", b"alpha-{n}" * 4), ("writef", "s{n}/big.bin", "random:9000"), ("writestr", "s{n}/z.txt", b"omega-{n}" * 3)],
+}
+
+
+def _members_of(mk):
+    if mk in BIG:
+        from mc.gen import content
+
+        return [(api, name, content.make(d.split(":")[0], int(d.split(":")[1]), 7) if isinstance(d, str) else d) for api, name, d in BIG[mk]]
+    return c07.SESSION_MEMBERS[mk]
 ARC = "/nonexistent-dir-for-c14/archive.7z"  # only ever seen by the open() shim
 
 
@@ -55,7 +69,7 @@ def record_session(base: bytes | None, n, mk, chain, header, password, root, tar
                     z.set_encoded_header_mode(False)
                 elif header == "encrypted":
                     z.set_encrypted_header(True)
-                for api, name, data in c07.SESSION_MEMBERS[mk]:
+                for api, name, data in _members_of(mk):
                     name = name.replace("{n}", str(n))
                     if api == "writestr":
                         d = data.replace(b"{n}", str(n).encode())
@@ -137,6 +151,14 @@ def run_spec(spec, wd):
     pw = archives.PASSWORD if any(chains.needs_password(c) or h == "encrypted" for _, c, h in sessions) else None
     base = None
     before = []
+    if spec.get("ref") is not None:
+        # the archive being appended to comes from the reference writer (layouts py7zr never writes itself)
+        from mc.checks import c10
+
+        rc = c10.ref_layout_cases()[spec["ref"]]
+        base = ref7z.write(rc["members"], rc["layout"], password=rc["password"])
+        before = [(m["name"], "dir" if m["kind"] == "dir" else "file", m["data"] or b"") for m in rc["members"]]
+        pw = rc["password"] or pw
     for n, (mk, chain, header) in enumerate(sessions[:-1]):
         base, app = c08.session(base, n, mk, chain, header, pw, root)
         before += app
@@ -155,6 +177,12 @@ def run_spec(spec, wd):
         lg = logical(img, pw)
         for who, got in lg.items():
             st, val = got[0], got[1]
+            if st == "listed" and val and label[0] == "drop" and label[2] >= 2:
+                # an OLDER block lost while two later ones reached the disk: beyond the property's fault model ("the last
+                # buffered block dropped or reordered"); py7zr issues no barrier before the final header rewrite, so such an
+                # image lists members whose data never arrived and reading them raises.  Counted, not judged.
+                res["beyond_model"] = res.get("beyond_model", 0) + 1
+                continue
             if st == "listed" and val:
                 # accepted as an archive and lists members, yet they cannot be read back: neither the before- nor the after-state
                 res["accepted"] += 1
@@ -177,13 +205,35 @@ def specs(tier):
     out = []
     for target in ("stream", "path"):
         for mk in kinds:
-            for c, h in (("COPY", "raw"), ("LZMA2", "encoded"), ("LZMA2+AES", "encrypted")) + ((("BZIP2", "raw"), ("COPY+AES", "encoded")) if tier != "quick" else ()):
+            if tier == "quick":
+                combos = (("COPY", "raw"), ("LZMA2", "encoded"), ("LZMA2+AES", "encrypted"))
+            else:
+                # every decoder family (with and without AES) under every header mode it admits
+                combos = tuple((c, h) for c in chains.FAMILIES + chains.FAMILIES_AES if "DEFLATE64" not in c
+                               for h in ("raw", "encoded") + (("encrypted",) if "AES" in c else ()))
+            for c, h in combos:
                 out.append({"sessions": [(mk, c, h)], "target": target})
         firsts = ["str1", "tree", "none"] if tier == "quick" else ["str1", "str2", "tree", "none", "dir", "zero"]
         for a in firsts:
             for b in kinds:
                 for (c1, h1), (c2, h2) in ((("COPY", "raw"), ("COPY", "raw")), (("LZMA2", "encoded"), ("COPY", "raw")), (("COPY", "raw"), ("LZMA2", "encoded"))):
                     out.append({"sessions": [(a, c1, h1), (b, c2, h2)], "target": target})
+        # sessions large enough to be split into several buffer flushes
+        for mk in ("big", "big2") if tier != "quick" else ("big2",):
+            for c, h in (("COPY", "raw"), ("LZMA2", "encoded")) if tier != "quick" else (("COPY", "raw"),):
+                out.append({"sessions": [(mk, c, h)], "target": target})
+                out.append({"sessions": [("str1", "COPY", "raw"), (mk, c, h)], "target": target})
+        # appends to reference-written archives (folder CRCs, packed CRCs, gaps, dummy padding, packed headers, AES ...)
+        from mc.checks import c10
+
+        nref = len(c10.ref_layout_cases())
+        for r in range(nref) if tier != "quick" else (1, 3, 6, 7, 8, 9, 22):
+            if c10.ref_layout_cases()[r]["label"] == "empty":
+                continue
+            for mk in ("str1", "none", "tree") if tier != "quick" else ("str1",):
+                out.append({"sessions": [(mk, "COPY", "raw")], "target": target, "ref": r})
+                if tier != "quick":
+                    out.append({"sessions": [(mk, "LZMA2", "encoded")], "target": target, "ref": r})
         if tier != "quick":
             for a in ("str1", "tree"):
                 for b in ("str2", "dir", "zero"):
@@ -210,6 +260,7 @@ def shard(task):
         sh.count("images_accepted_by_a_reader", r["accepted"])
         sh.count("sessions")
         sh.count("ops", r["ops"])
+        sh.count("deeper_reorder_images_listing_undelivered_data_not_judged", r.get("beyond_model", 0))
         if len(sh.samples) < 2:
             sh.samples.append({"spec": spec, "ops": r["ops"], "bytes_written": r["bytes"], "images": r["images"], "accepted": r["accepted"]})
         for sig, what, label in r["violations"]:
@@ -221,7 +272,7 @@ def replay(case):
     wd = "/dev/shm/c14r-%d" % os.getpid()
     os.makedirs(wd, exist_ok=True)
     try:
-        spec = {"sessions": [tuple(s) for s in case["spec"]["sessions"]], "target": case["spec"]["target"]}
+        spec = {"sessions": [tuple(s) for s in case["spec"]["sessions"]], "target": case["spec"]["target"], "ref": case["spec"].get("ref")}
         r = run_spec(spec, wd)
         return [(v[0], v[1]) for v in r["violations"]]
     finally:
@@ -238,13 +289,13 @@ def main(tier="quick", seed=0, only=None):
     return chk.finish(
         rule=(
             f"{len(sp)} sessions (create, and append after 1..2 earlier sessions; member kinds none/writestr/writestr+writef/zero-length/"
-            "writeall tree/directory; chains COPY, LZMA2, LZMA2+AES; header raw/encoded/encrypted; target = caller stream (each write call "
+            "writeall tree/directory/members of 9-20 KB that split the session into several buffer flushes; appends to reference-written archives with layouts py7zr never writes; chains COPY, LZMA2, LZMA2+AES (thorough: every decoder family with and without AES under every header mode); header raw/encoded/encrypted; target = caller stream (each write call "
             "of py7zr is one op) and path (ops are the flushes of the real io.BufferedRandom)). For each: EVERY byte prefix of the recorded "
             "write/truncate stream, plus every image in which one of the two most recent completed ops never reached the disk. Every image "
             "is opened by py7zr (names + extractall) and by ref7z; an image that opens must show the complete member list of the session "
             "(append: of the state before or after) AND its members must read back - an image that opens, lists members and then fails to deliver them is neither state. evaluations = distinct images; distinct_nontrivial = sessions."
         ),
-        assumptions=["py7zr never calls fsync, so every op is unsynced; reordering is bounded to dropping one of the last two ops",
+        assumptions=["py7zr never calls fsync, so every op is unsynced; reordering as the property bounds it: the last block missing (= a prefix) or the last block on disk without its predecessor; images in which the block two before the last is missing are explored too but judged only for delivering wrong contents",
                      "the crashing session is the last one of the history"],
         exhaustive=True,
     )
